@@ -211,7 +211,7 @@ theorem openFasta_ready (bytes : Bytes) (B abc : Nat) (hB : 1 ≤ B) (habc : abc
   have hfmt : lb.1.fmt = 1 := congrArg (fun p => p.2.2.2.2.2.2.1) lr
   have heof : lb.1.eofIsOk = true := congrArg (fun p => p.2.2.2.2.2.1) lr
   have hpos : pos lb.1 = 0 := by rw [hp]; rfl
-  have htok : Track.Ok lb.1.trk := by rw [htrk]; exact ⟨by decide, by decide⟩
+  have htok : Track.Ok lb.1.trk := by rw [htrk]; exact ⟨by decide, by decide, by decide⟩
   have hcur : Cur lb.1 := by
     refine ⟨w, ?_, htok⟩
     rcases o with ⟨_, o2, _⟩ | ⟨_, o2, o3⟩
